@@ -25,7 +25,7 @@ ALL = ["C01", "C02", "C03", "C05", "C06", "C07", "C08", "C10", "C11", "C12",
 
 def _generic_rules(rep):
     """rules that hold for every function a driver looked at (the functions named in the evidence), whatever the property"""
-    from .rules.argorder import swapped_positional
+    from .rules.argorder import swapped_positional, misbound_positional
     from .core import alpha
     n = int(rep.prop[1:])
     fis = []
@@ -41,11 +41,21 @@ def _generic_rules(rep):
             pair = why.split("(`", 1)[1].split("`)", 1)[0].split("`, `") if "(`" in why else ["", ""]
             if any(len(x.split(".")[-1].lstrip("_")) > 1 for x in pair):
                 bad.append((fi, c, why))
+    seen_calls = {id(c) for _, c, _ in bad}
+    for fi in fis:
+        for c, why in misbound_positional(fi):
+            if id(c) not in seen_calls:
+                seen_calls.add(id(c))
+                bad.append((fi, c, why))
+    from .rules.wl_identity import wl_equality_as_identity
+    wl_bad = [(fi, node, why) for fi in fis for node, why in wl_equality_as_identity(fi)]
+    for fi, node, why in wl_bad:
+        rep.ob(f"O{n}.0", "WL", fi, False, alpha(node, fi.node)[:90], "equal Weisfeiler-Lehman hashes do not make two graphs the same result: " + why, node=node)
     if bad:
         for fi, c, why in bad:
             rep.ob(f"O{n}.0", "ARG", fi, False, alpha(c, fi.node)[:90], "like-named values are passed to the like-named parameters: " + why, node=c)
     else:
-        rep.ob(f"O{n}.0", "ARG", f"{rep.prop}:<analysed functions>", True, f"{len(fis)} functions", "no call inside the analysed functions passes two like-named values to each other's parameters (mutual swap)")
+        rep.ob(f"O{n}.0", "ARG", f"{rep.prop}:<analysed functions>", True, f"{len(fis)} functions", "no call inside the analysed functions passes a value named like one parameter of the callee to another parameter (mutual swap or shifted position)")
 
 
 def analyse(prop: str, root: str, tier: str, quiet: bool = False, overlay=None):
